@@ -1,4 +1,8 @@
+#![allow(dead_code)]
 mod charsets;
+mod dump;
+mod regex;
+mod terms;
 mod util;
 
 use util::Args;
@@ -46,6 +50,8 @@ fn main() {
     util::silence_panics();
     match (argv[1].as_str(), argv[2].as_str()) {
         ("drive", "charsets") => charsets::drive(&a),
+        ("drive", "c01") => regex::drive_c01(&a),
+        ("drive", "c02") => regex::drive_c02(&a),
         _ => usage(),
     }
 }
